@@ -191,7 +191,7 @@ func (x *Exec) deadlockDesc() string {
 }
 
 func (x *Exec) pickThread(en []*thread) *thread {
-	if len(en) == 1 {
+	if len(en) == 1 || x.canonSched {
 		return en[0]
 	}
 	x.threads.steps++
